@@ -58,8 +58,20 @@ def csv(xs):
 # ------------------------------------------------------------------------------------------------
 # C18: index enumeration
 
+def resume_ks(dims):
+    """numbers of leading next() calls after which an enumeration is resumed through the provided Iterator methods:
+    start, inside the first row, on / just after every row and plane boundary, the middle, the last item, the end and
+    one past the end (deduplicated, 0 <= k <= total + 1)"""
+    total = prod(dims)
+    ks = {0, 1, dims[-1], dims[-1] + 1, total // 2, total - 1, total, total + 1}
+    for i in range(1, len(dims)):
+        p = prod(dims[i:])
+        ks |= {p, p + 1}
+    return sorted(k for k in ks if 0 <= k <= total + 1)
+
+
 def enum_case(variant, dims):
-    return line(variant, dims, ["indexes", "keys", "dkeys", "indexes"])
+    return line(variant, dims, ["indexes", "keys", "dkeys", "indexes"] + ["resume:%d" % k for k in resume_ks(dims)])
 
 
 # ------------------------------------------------------------------------------------------------
